@@ -13,6 +13,34 @@ CHECKS = {
             "after every API call and every kernel event.  Held on everything explored; no proof of absence.",
             "Trusted: SimPy kernel; harness acts as a process by setting env._active_proc; held items are read from the public "
             "lists items/ready_items; granted-unused tokens come from the harness's own ledger.", "DESIGN.md §4 C01"),
+    "C02": ("S", "property-based testing: generated store op-histories, conservation-by-identity oracle after every step",
+            "Exploration: generated histories with several outstanding retrievals, cancels of granted tokens, arrivals in between, "
+            "gets in arbitrary order on all store classes (FIFO and LIFO); multiset(put) = multiset(got) + inside by object identity "
+            "after every call and kernel event, every granted get returns a distinct put object.", "Trusted: SimPy kernel; harness acts as a process by setting env._active_proc; public lists items/ready_items; the harness's own token ledger.", "DESIGN.md §4 C02"),
+    "C04": ("S", "property-based testing: generated store op-histories, end-of-instant no-lost-wake-up invariant",
+            "Exploration: generated histories with many waiting requests on both sides; invariant 'no pending request while it is "
+            "servable' after every call (time-less stores) and at the end of every simulated instant (all stores).",
+            "Trusted: SimPy kernel; harness acts as a process by setting env._active_proc; public lists items/ready_items; the harness's own token ledger. 'At that instant' is judged when all kernel events of the timestamp are processed.", "DESIGN.md §4 C04"),
+    "C05": ("S", "property-based testing: generated request histories, model-free service-order predicate",
+            "Exploration: generated histories with priorities -2..2 and many ties on the priority stores (FCFS elsewhere) plus "
+            "put/get/cancel request histories on PriorityReqStore; no request is granted while an earlier-ranked one of the same kind is pending.",
+            "Trusted: SimPy kernel; harness acts as a process by setting env._active_proc; public lists items/ready_items; the harness's own token ledger. Grant = event.triggered polled after every call and kernel event.", "DESIGN.md §4 C05"),
+    "C06": ("S", "property-based testing: generated op-histories against a nondeterministic (possible-worlds) reference model of token-item binding",
+            "Exploration: histories rich in cancels of granted retrievals, both buffer modes, filter predicates; every get() result must "
+            "agree with at least one binding assignment the statement allows (FIFO / LIFO / filter / release rule).",
+            "Trusted: SimPy kernel; harness acts as a process by setting env._active_proc; public lists items/ready_items; the harness's own token ledger. Items becoming available in one kernel event are mutually unordered (C14 owns batch order); two released items are mutually unordered.", "DESIGN.md §4 C06"),
+    "C07": ("S", "property-based testing: generated op-histories with injected misuse calls; state-equality and metamorphic (delete-the-rejected-call) oracle",
+            "Exploration: nine kinds of ill-formed put/get/cancel calls injected into valid histories on all store classes; each must raise "
+            "exactly RuntimeError, leave items/ready_items/occupancy/live tokens unchanged, and the history without the rejected calls "
+            "must produce the identical observable trace.", "Trusted: SimPy kernel; harness acts as a process by setting env._active_proc; public lists items/ready_items; the harness's own token ledger. Buffer edges use constant delays here.", "DESIGN.md §4 C07"),
+    "C11": ("S", "property-based testing: generated op-histories with probe operations; exact-time and differential (query vs probe reservation) oracle",
+            "Exploration: Buffer and Fleet edges with constant/callable/generator delays incl. 0; delay source consulted once per put, item "
+            "retrievable exactly from t+d, can_put()/can_get() equal the outcome of a probe reservation, occupancy equals puts minus gets.",
+            "Trusted: SimPy kernel; harness acts as a process by setting env._active_proc; public lists items/ready_items; the harness's own token ledger. Due times use the kernel's own float arithmetic (now + delay).", "DESIGN.md §4 C11"),
+    "C14": ("S", "property-based testing: generated load/consume histories against a reference model of fleet departures",
+            "Exploration: FleetStore / Fleet with capacity 1-5, five delays, five transit delays (0 included); every item must become available "
+            "exactly at (first departure >= its load) + 2*transit, in loading order; departures = capacity instants and timer expiries.",
+            "Trusted: SimPy kernel; harness acts as a process by setting env._active_proc; public lists items/ready_items; the harness's own token ledger. The dispatcher timer phase (restart at every wake-up) is taken from the implementation; delay 0 excluded (C20).", "DESIGN.md §4 C14"),
 }
 
 NOT_YET = "check not built yet in this session (work in progress; see DESIGN.md §4)"
